@@ -210,7 +210,11 @@ FROZEN_REFS = ["frozen@sha256:{good}", "frozen@sha256:{good:U}", "frozen@sha256:
                "frozen@sha256:" + ("../" * 22)[:64], "frozen@sha256:" + "g" * 64, "frozen@sha256:" + "0" * 63, "frozen@sha256:" + "0" * 65, "frozen@sha256:" + "0" * 16,
                "frozen@sha256:" + "\u0660" * 64, "frozen@sha256:" + "\uff41" * 64, "frozen@sha256:" + "0" * 63 + "\x00", "frozen@sha256:" + "0" * 32 + "\x00" + "0" * 31,
                "frozen@sha256:" + "0" * 63 + "/", "frozen@sha256:" + "." * 64, "frozen@sha256:" + "/" * 64, "frozen@sha256:sha256:{good}", "frozen@sha256:{good}{good}",
-               "frozen@md5:{good}", "sha256:{good}", "{good}"]
+               "frozen@md5:{good}", "sha256:{good}", "{good}",
+               # 64 characters whose first 16 name an existing file outside the cache directory (../../out/secret + .oct.md)
+               "frozen@sha256:../../out/secret" + "/" * 48, "frozen@sha256:../../out/secret" + "0" * 48, "frozen@sha256:../../out/secret" + "a." * 24,
+               # … made of hex digits, dots and slashes only: ../deadbeefcafe0 + .oct.md is a file next to the cache directory
+               "frozen@sha256:../deadbeefcafe0" + "0" * 48, "frozen@sha256:../deadbeefcafe0" + "/" * 48, "frozen@sha256:../DEADBEEFCAFE0" + "." * 48]
 
 
 def frozen_refs(ctx):
